@@ -15,12 +15,19 @@ From CSL Require Import Base.Prelude Base.Hex Cbor.Head Cbor.Item Codec.Schema C
 
 Local Notation never_panics r := (r <> Panic /\ r <> OutOfFuel).
 
+(* every ledger type that has a schema: the C01 table and its extension (63 further types) *)
+Definition ledger_type (d : nat) (s : schema) : Prop := In s (ledger_schemas d) \/ In s (ledger_schemas_more d).
+Lemma ledger_type_wf d s : ledger_type d s -> wfs s = true.
+Proof.
+  intros [H|H]; [exact (proj1 (Forall_forall _ _) (ledger_schemas_wf d) s H)|exact (proj1 (Forall_forall _ _) (ledger_schemas_more_wf d) s H)].
+Qed.
+
 (* ---- schema layer: ONE theorem for every schema (well-formed or not) and every byte string ---- *)
 Theorem C02_model_total : forall (s : schema) (bs : bytes), never_panics (dec s bs).
 Proof. exact schema_dec_total. Qed.
 Print Assumptions C02_model_total.
 
-Theorem C02_ledger_total : forall d s, In s (ledger_schemas d) -> forall bs : bytes, never_panics (dec s bs).
+Theorem C02_ledger_total : forall d s, ledger_type d s -> forall bs : bytes, never_panics (dec s bs).
 Proof. intros d s _ bs. apply schema_dec_total. Qed.
 Print Assumptions C02_ledger_total.
 
@@ -32,21 +39,21 @@ Print Assumptions C02_reserialise_wf.
 (* ... and so is the re-serialisation of what the decoder returns for ANY accepted input (non-minimal heads, unsorted or
    duplicate keys, any chunking, anything behind the item), for every ledger type; premises: the input is made of
    bytes and is shorter than 2^60 bytes *)
-Theorem C02_reserialise_full : forall d s, In s (ledger_schemas d) ->
+Theorem C02_reserialise_full : forall d s, ledger_type d s ->
   forall bs v rest, bytes_ok bs -> (N.of_nat (length bs) < 1152921504606846976)%N -> dec s bs = Ok (v, rest) ->
   item_wf (enc s v) = true.
 Proof.
   intros d s Hin bs v rest Hb Hl H. apply (schema_reserialise_full s bs v rest); [|exact Hb|exact Hl|exact H].
-  exact (proj1 (Forall_forall _ _) (ledger_schemas_wf d) s Hin).
+  exact (ledger_type_wf d s Hin).
 Qed.
 Print Assumptions C02_reserialise_full.
 
 (* the instance on writer output followed by anything (no length premise needed: the round-trip theorem gives v' = v) *)
-Theorem C02_reserialise_after_decode_wf : forall d s, In s (ledger_schemas d) ->
+Theorem C02_reserialise_after_decode_wf : forall d s, ledger_type d s ->
   forall v rest v' rest', wfv s v = true -> dec s (enc s v ++ rest) = Ok (v', rest') -> item_wf (enc s v') = true.
 Proof.
   intros d s Hin v rest v' rest' Hv H. apply (schema_reserialise_wf s v rest v' rest'); [|exact Hv|exact H].
-  exact (proj1 (Forall_forall _ _) (ledger_schemas_wf d) s Hin).
+  exact (ledger_type_wf d s Hin).
 Qed.
 Print Assumptions C02_reserialise_after_decode_wf.
 
